@@ -137,7 +137,15 @@ def run_binary(args):
         if os.path.exists(argv[0]):
             break
         time.sleep(5)
-    r = subprocess.run(argv + [path], stdout=subprocess.PIPE, stderr=subprocess.PIPE, timeout=300)
+    for attempt in range(4):         # a run that dies while the binary is being replaced prints nothing: repeat it
+        try:
+            r = subprocess.run(argv + [path], stdout=subprocess.PIPE, stderr=subprocess.PIPE, timeout=300)
+        except OSError:
+            time.sleep(5)
+            continue
+        if r.returncode >= 0 and b"Checking" in r.stdout:
+            break
+        time.sleep(5)
     return r.stdout.decode("latin-1"), r.stderr.decode("latin-1")
 
 
